@@ -8,7 +8,8 @@ import os
 from ..compare import parse_bindings
 from ..escape import DOCUMENTED, Escape
 from ..interp import Interp
-from ..model import ClassInfo, EnumMember
+from ..interp_call import external_table
+from ..model import ClassInfo, EnumMember, dotted
 from ..trace import Op, Risk, walk
 from ..values import ClassV, FieldV, ObjV, Sym, ValidatorV, is_const, show
 
@@ -58,6 +59,7 @@ def check(ctx, report):
     report.rule('C02.R1', 'escape(C._parse) within the documented set (raises, re-raises, nested parsers)')
     report.rule('C02.R2', 'parser keys are defined on every path before they are read')
     report.rule('C02.R3', 'converters/validators of objects built from parsed values cannot raise undocumented errors')
+    table_shape(ctx, report)
     report.rule('C02.R4', 'risky operations on input derived values are guarded or converted')
     deep = Interp(model, deep=True)
     es = Escape(model, deep)
@@ -222,6 +224,16 @@ def constructed_objects(ctx, report):
                         report.add('C02.R3', '%s@converter[%s]' % (c.resolve('_parse').construct, fld.name),
                                    'parsed value %s is passed to the enum converter %s of %s.%s: an out-of-table value raises ValueError, which is not converted' % (
                                        src.key, conv.cls.name, k.name, fld.name))
+                # a library function used as converter: its documented errors are raised inside the generated __init__, i.e.
+                # outside every handler of the parser, unless the parse primitive already applied the same function
+                cd = dotted(fld.converter_node) if fld.converter_node is not None else None
+                ext_raises = external_table()['raises'].get(cd) if cd else None
+                if ext_raises and src is not None:
+                    applied = [show(src.op.args.get(a)) for a in ('item_class', 'converter') if src.op.args.get(a) is not None]
+                    if not any(cd in x for x in applied):
+                        report.add('C02.R3', '%s@converter[%s]' % (c.resolve('_parse').construct, fld.name),
+                                   'parsed value %s reaches the converter %s of %s.%s unconverted: %s is raised inside the generated __init__, outside every handler' % (
+                                       src.key, cd, k.name, fld.name, ' / '.join(x.split('.')[-1] for x in ext_raises)))
                 if src is not None and src.op.prim == 'parse_timestamp':
                     optional = isinstance(val, ValidatorV) and val.kind == 'optional'
                     if isinstance(val, ValidatorV) and val.kind == 'instance_of' and not optional:
@@ -262,3 +274,50 @@ def find_objs(v, out):
     elif isinstance(v, Sym) and v.op == 'phi':
         for a in v.args:
             find_objs(a, out)
+
+
+# ---- R5: shape of the data tables -------------------------------------------------------------------------------------
+
+def table_shape(ctx, report):
+    """a column of a data table (cryptodatahub JSON) that is null for some member, dereferenced as ``x.value.<col>.value...``
+    on a value that came off the wire, raises AttributeError for those members unless a type / None test on the same
+    prefix dominates the access and leaves through raise / return"""
+    from ..model import ParamsValue
+    model = ctx.model
+    report.rule('C02.R5', 'nullable columns of the data tables are dereferenced only behind a type or None test')
+    cols = {}
+    for c in model.all_classes:
+        if c.enum_members is None:
+            continue
+        for n, v in c.enum_members.items():
+            if isinstance(v, ParamsValue):
+                for k, val in v.fields.items():
+                    if val is None:
+                        cols.setdefault(k, {}).setdefault(c.name, []).append(n)
+    for f in model.functions():
+        if f.module.external:
+            continue
+        for n in ast.walk(f.node):
+            if not (isinstance(n, ast.Attribute) and isinstance(n.value, ast.Attribute) and n.value.attr == 'value' and
+                    isinstance(n.value.value, ast.Attribute) and isinstance(n.value.value.value, ast.Attribute) and n.value.value.value.attr == 'value'):
+                continue
+            col = n.value.value.attr
+            if col not in cols:
+                continue
+            report.count('C02.R5')
+            report.touch(f)
+            prefix = ast.unparse(n.value.value)
+            guarded = False
+            for g in ast.walk(f.node):
+                if isinstance(g, ast.If) and g.lineno < n.lineno:
+                    t = ast.unparse(g.test)
+                    leaves = bool(g.body) and isinstance(g.body[-1], (ast.Raise, ast.Return))
+                    if leaves and ('not isinstance(%s,' % prefix in t or '%s is None' % prefix in t):
+                        guarded = True
+                    if ('isinstance(%s,' % prefix in t and 'not isinstance' not in t or '%s is not None' % prefix in t) and \
+                            any(x is n for b in g.body for x in ast.walk(b)):
+                        guarded = True
+            if not guarded:
+                who = '; '.join('%s.%s' % (e, '/'.join(ms[:3])) for e, ms in list(cols[col].items())[:3])
+                report.add('C02.R5', '%s@deref[%s]' % (f.construct, ast.unparse(n)),
+                           '%s dereferences the table column %r, which is null for %s: AttributeError for those code points' % (ast.unparse(n), col, who))
